@@ -551,14 +551,24 @@ def check_C13(cx):
         text = b"\n".join(r.choice(pool) for _ in range(r.choice([1, 2, 3, 5, 9])))
         hists.append(["N 0 300 cc", "K 0 %d" % c, "O 0 %d" % p0, "A 0 %s" % cases.hexs(text), "G 0", "D 0 0 300", "F 0"])
         meta.append((14, text, c, p0))
-    # fitting switched on and off between calls, c < 2 disables it
-    for _ in range(200 if cx.tier == "quick" else 2000):
+    # fitting switched on and off between calls, c < 2 disables it; a counting call in between changes nothing
+    onoff = []
+    for _ in range(300 if cx.tier == "quick" else 3000):
         c1, c2 = r.choice([0, 1, 2, 5, 8, 16]), r.choice([0, 1, 3, 8, 13])
         t1 = b"\n".join(r.choice(pool) for _ in range(3))
         t2 = b"\n".join(r.choice(pool) for _ in range(3))
-        hists.append(["N 0 300 cc", "K 0 %d" % c1, "A 0 %s" % cases.hexs(t1), "G 0", "K 0 %d" % c2, "A 0 %s" % cases.hexs(t2),
-                      "G 0", "D 0 0 300", "F 0"])
+        between = []
+        if r.random() < 0.5:
+            between = ["C 0 %d %s 1" % (r.choice([2, 4, 7, 16]), cases.hexs(b"\n".join(r.choice(pool) for _ in range(2)))), "O 0 40"]
+        if r.random() < 0.3:
+            between = ["K 0 %d" % r.choice([0, 1])] + between
+        h = ["N 0 400 cc", "K 0 %d" % c1, "A 0 %s" % cases.hexs(t1), "G 0", "K 0 %d" % c2] + between + \
+            ["O 0 40", "A 0 %s" % cases.hexs(t2), "G 0", "D 0 0 400", "F 0"]
+        hists.append(h)
         meta.append(None)
+        # effective fitting state for the last call: the last K decides (a K below 2 switches fitting off and keeps the size)
+        ks = [int(x.split()[2]) for x in h if x.startswith("K ")]
+        onoff.append((len(hists) - 1, t2, ks[-1] if ks[-1] >= 2 else 0))
     ops, out = tie_api_mod_lf(cx, impl, hists, "C13 chunk fitting histories")
     res = impl_line_results(impl, set((14, l) for m in meta if m for l in split_lines(m[1])))
     pos, nviol, npadded = 0, 0, 0
@@ -583,9 +593,31 @@ def check_C13(cx):
                                   "expected": exp.hex(), "got": got[p0:p0 + len(exp) + 8].hex(), "offset": o[4],
                                   "what": "output is not the plain code with NOP-table pads exactly in front of the instructions that "
                                           "would straddle a boundary", "history": h})
+    # on/off histories: the last call is laid out by the fitting state the setters left, whatever happened before
+    starts = [0]
+    for h in hists:
+        starts.append(starts[-1] + len(h))
+    res2 = impl_line_results(impl, set((14, l) for _, t2, _ in onoff for l in split_lines(t2)))
+    for hi, t2, ceff in onoff:
+        h = hists[hi]
+        o = out[starts[hi]:starts[hi] + len(h)]
+        if len(o) < len(h):
+            continue
+        codes, bad = line_codes(res2, 14, t2)
+        if bad is not None:
+            continue
+        exp = spec_fit_layout(codes, ceff, 40, nops) if ceff >= 2 else b"".join(codes)
+        rc = o[-4].split()[0]
+        got = bytes.fromhex(o[-2]) if o[-2] != "-" else b""
+        if not (rc == "0" and int(o[-3]) == 40 + len(exp) and got[40:40 + len(exp)] == exp) and nviol < 8:
+            nviol += 1
+            cx.violations.append({"kind": "fitting-onoff", "effective_chunk": ceff, "program": t2.decode("latin1"), "expected": exp.hex(),
+                                  "got": got[40:40 + len(exp) + 8].hex(), "offset": o[-3], "history": [x[:160] for x in h],
+                                  "what": "after switching fitting on/off (and a counting call) the call is not laid out by the fitting state "
+                                          "the setters left: chunk sizes below 2 disable fitting"})
     cx.nontrivial.update(m for m in meta if m)
     cx.cov["samples"] = [hists[10], hists[nstruct + 2], hists[-1]]
-    cx.dist = {"chunk_sizes_exhaustive": [2, cmax], "instruction_lengths": lens, "structured": nstruct,
+    cx.dist = {"chunk_sizes_exhaustive": [2, cmax], "instruction_lengths": lens, "structured": nstruct, "on_off_histories": len(onoff),
                "random": len(hists) - nstruct, "cases_with_padding": npadded}
     return finish(cx, "every chunk size 2..%d x every start position mod c x every instruction length the library emits (%s bytes; one "
                   "representative line each) followed by a second instruction; seeded random programs/chunk sizes/offsets; fitting switched "
@@ -1275,6 +1307,7 @@ def lea_fields(bs):
 
 
 MEM_TEMPLATES = ["lea r15, %s", "lea eax, %s", "mov rcx, %s", "mov %s, rdx", "mov dword %s, 7", "add %s, rsi", "inc qword %s", "push qword %s",
+                 "and qword %s, 0xfffffffffffffff0", "add dword %s, 0x0000000000000010",
                  "movaps xmm3, %s", "vaddpd ymm1, ymm2, %s", "vmovdqu %s, ymm5", "mulx rax, rbx, %s", "shrx rax, %s, rbx", "imul rax, %s, 5",
                  "movzx eax, byte %s", "cmovne r9, %s", "xchg %s, r10", "test byte %s, 1", "movq xmm1, %s", "adc r8, %s"]
 
@@ -1282,6 +1315,7 @@ MEM_TEMPLATES = ["lea r15, %s", "lea eax, %s", "mov rcx, %s", "mov %s, rdx", "mo
 # templates whose immediate follows a memory destination: the immediate's width is C02's business (it is derived from the base
 # register in the C code), so the whole-instruction comparison with the rewritten operand is not made for them
 IMM_MEM_FIRST = {"mov dword %s, 7", "test byte %s, 1"}
+# (the two templates with 16-digit immediates are compared in full: the immediate's width is right since the C03 fixes)
 
 
 def exec_program(base, index, scale, disp, vals):
@@ -1343,7 +1377,7 @@ def check_C11(cx):
     disps = [None, 8, -8, 0x7f, -0x80, 0x80, -0x81, 0x12345, -0x12345]
     if quick:
         disps = [None, 8, -8, 0x80, -0x12345]
-    tmpls = MEM_TEMPLATES if not quick else MEM_TEMPLATES[:12]
+    tmpls = MEM_TEMPLATES if not quick else MEM_TEMPLATES[:14]
     shapes = []   # (text, class, (base, index, scale, disp), equivalent text or None)
     def dtxt(d):
         return "" if d is None else ("+0x%x" % d if d >= 0 else "-0x%x" % -d)
@@ -1723,6 +1757,10 @@ OS_HARMLESS = {"free", "fprintf", "printf", "puts", "putchar", "perror", "stderr
                "strlen", "strncpy", "strstr", "strtok_r", "strtoul", "tolower", "__stack_chk_fail", "_GLOBAL_OFFSET_TABLE_", "__errno_location",
                "fputc", "fputs", "putc", "snprintf", "memcmp", "strncmp", "__ctype_tolower_loc", "__ctype_b_loc"}
 FAULT_SCENARIOS = ["create_int", "create_ext", "growth", "file", "file_count", "binfile"]
+# a refused growth in chunk-fitting / counting mode: the room check after the NOP padding is a growth point of its own, reached only
+# for chunk sizes and alignments where the padding carries the position over the threshold
+FAULT_GROWTH_MODES = ["growthfit:%d:%d" % (c, lead) for c in (7, 11, 13, 24) for lead in range(0, 100)] + \
+                     ["growthcount:%d:%d" % (c, lead) for c in (7, 16) for lead in (0, 33, 77)]
 FILE_TEXT = b"mov rcx, 0x5\nadd rcx, rdx\nnop\nret\n"
 P1_TEXT = b"mov rax, 0x1122334455667788\nadd rax, rcx\nret\n"
 P3_TEXT = b"xor eax, eax\nret\n"
@@ -1778,15 +1816,22 @@ def model_fault(sc, kind, k, counts):
     if c == "null":
         return exp
     # the instance: a refused k-th growth is a caller buffer of the size reached after k-1 growths
-    if sc == "growth" and kind == "mremap":
+    if sc.startswith("growth") and kind == "mremap":
         inst = "N 0 %d 00" % (6020 + 6000 * (k - 1))
     elif ext:
         inst = "N 0 4096 cc"
     else:
         inst = "N 0 -"
     ops = [inst, "A 0 %s" % cases.hexs(P1_TEXT), "D 0 0 14"]
-    if sc == "growth":
-        ops += ["A 0 %s" % cases.hexs(BIG_TEXT)]
+    if sc.startswith("growth"):
+        mode, chunk, lead = (sc.split(":") + ["0", "0"])[:3]
+        big = BIG_TEXT if mode == "growth" else b"mov rdx, 0x1122334455667788\n" * 40
+        if mode == "growthfit":
+            ops += ["O 0 %d" % (5900 + int(lead)), "K 0 %s" % chunk, "A 0 %s" % cases.hexs(big), "K 0 0"]
+        elif mode == "growthcount":
+            ops += ["O 0 %d" % (5900 + int(lead)), "C 0 %s %s 1" % (chunk, cases.hexs(big))]
+        else:
+            ops += ["A 0 %s" % cases.hexs(big)]
     elif sc in ("file", "file_count"):
         reads = "-"
         if kind == "read" and k == 1:
@@ -1808,8 +1853,8 @@ def model_fault(sc, kind, k, counts):
     out = run(ops)
     exp["asm1"], exp["off1"] = out[1].split()[0], out[1].split()[1]
     exp["code1"] = out[2]
-    step = out[3].split()
-    if sc == "growth":
+    step = out[5].split() if sc.startswith("growthfit") else out[4].split() if sc.startswith("growthcount") else out[3].split()
+    if sc.startswith("growth"):
         exp["asm2"], exp["off2"] = step[0], step[1]
     elif sc in ("file", "file_count"):
         if exp["file_null"]:
@@ -1821,8 +1866,7 @@ def model_fault(sc, kind, k, counts):
     elif sc == "binfile":
         exp["bin"] = step[0]
         exp["file_complete"] = "1" if step[1] == exp["code1"] else "0"
-    k3 = 4 if sc in ("growth", "file", "file_count", "binfile") else 3
-    exp["asm3"], exp["off3"] = out[k3 + 1].split()[0], out[k3 + 1].split()[1]
+    exp["asm3"], exp["off3"] = out[-2].split()[0], out[-2].split()[1]
     exp["destroy"] = "0"
     return exp
 
@@ -1852,13 +1896,15 @@ def check_C17(cx):
     nsched = nfired = 0
     fired_by_kind = collections.Counter()
     samples = []
-    for sc in FAULT_SCENARIOS:
+    for sc in FAULT_SCENARIOS + (FAULT_GROWTH_MODES if cx.tier == "thorough" else FAULT_GROWTH_MODES[::2]):
         rc, ended, base, err = run_fault(impl, sc, "none", 0, tmpdir)
         if rc != 0 or not ended:
             cx.violations.append({"kind": "crash", "scenario": sc, "fault": "none", "rc": rc, "stderr": err, "what": "scenario crashes without any fault"})
             continue
         counts = {w: int(base.get(w, "0")) for w in WRAPPED}
         scheds = [("none", 0)] + [(w, k) for w in WRAPPED for k in range(1, counts[w] + 1)]
+        if ":" in sc:
+            scheds = [("mremap", k) for k in range(1, counts["mremap"] + 1)]
         if sc in ("file", "file_count"):
             scheds.append(("shortread", 1))
         for kind, k in scheds:
@@ -1895,7 +1941,7 @@ def check_C17(cx):
                     bad = "the refused allocation is not reported by the documented return value"
                 elif kind in ("fopen", "fwrite", "fclose") and kv.get("bin") != "1":
                     bad = "the refused file operation is not reported by asm_create_bin_file"
-                elif "asm2" in kv and kv["asm2"] == "1" and kv.get("off2") != kv.get("off1"):
+                elif "asm2" in kv and kv["asm2"] == "1" and kv.get("off2") != kv.get("offb", kv.get("off1")):
                     bad = "the failed call changed the offset"
             if bad:
                 cx.violations.append({"kind": "fault", **tag, "observed": kv, "what": bad})
@@ -2219,7 +2265,7 @@ def check_C20(cx):
     for pi, prog in enumerate(progs):
         modes = CLI_MODES if pi == 0 else r.sample(CLI_MODES, 4 if quick else 10)
         for mode in modes:
-            for out in (outs if pi < 4 else r.sample(outs, 5)):
+            for out in (outs if pi < 4 or len(prog) > 6000 else r.sample(outs, 5)):
                 for stdin in (False, True):
                     cases_.append((pi, mode + out if r.random() < 0.5 else out + mode, stdin))
     # -r on side-effect free programs
@@ -2249,7 +2295,9 @@ def check_C20(cx):
                 filebytes = open(fp, "rb").read().hex() or "-"
         model_toks = [("P" if t == "Pbad" else t) for t in toks]
         ops.append("CL %s %d %s %d" % (",".join(model_toks) or "-", stdin, cases.hexs(prog), 0 if "Pbad" in toks else 1))
-        obs.append((p.returncode, so, filebytes, p.stderr.decode("latin1")[-300:]))
+        se = p.stderr.decode("latin1")
+        k = se.find("ERROR: AddressSanitizer")
+        obs.append((p.returncode, so, filebytes, se[k:k + 300] if k >= 0 else se[-300:]))
     rc, mout, merr = alv.run_driver(alv.driver_path(), ops)
     cx.oblige("model ran %d asmline invocations" % len(ops), rc == 0 and len(mout) == len(ops), merr[-300:])
     if rc != 0 or len(mout) != len(ops):
@@ -2271,6 +2319,8 @@ def check_C20(cx):
                 mism.append({**tag, "what": "count printed by -b", "asmline": so[-80:], "model": mcount})
         # the property, directly
         bad = None
+        if xrc < 0 or xrc >= 128 or "AddressSanitizer" in err or "runtime error:" in err:
+            bad = "asmline crashed (signal / sanitizer report) instead of reporting through its outputs and exit status"
         if xrc == 0 and "p" in toks and mexit == "0":
             printed = hex_tokens(so)
             want = "" if mcode == "-" else mcode
